@@ -197,6 +197,29 @@ class ReopenEngine(Engine):
         nid = 1
         from ..model import ModelError
 
+        have = {e["p"] for e in init}
+        if swarm["validate_objectdb"] and {"m1.py", "m2.py", "pkg/m3.py", "pkg/m4.py"} <= have and rng.random() < 0.4:
+            # information about two modules is collected and looked up; one of them is removed and the
+            # other moved onto its path (the store follows moves when it validates); more information
+            # about that path is collected; then the project is saved
+            m1 = next(e["text"] for e in init if e["p"] == "m1.py")
+            nl = "\n"
+            scen = [
+                {"op": "analyze", "path": "m2.py"}, {"op": "analyze", "path": "pkg/m4.py"}, {"op": "analyze", "path": "pkg/m4.py"},
+                {"op": "do", "cs": {"id": 9201, "desc": "cs9201", "ops": [["remove", "pkg/m3.py", "f"]]}},
+                {"op": "do", "cs": {"id": 9202, "desc": "cs9202", "ops": [["move", "m1.py", "pkg/m3.py", "f", False]]}},
+                {"op": "do", "cs": {"id": 9203, "desc": "cs9203", "ops": [["edit", "pkg/m4.py", "from pkg.m3 import foo" + nl + nl + "q = foo(5)" + nl + "q2 = foo('s')" + nl]]}},
+                {"op": "analyze", "path": "pkg/m4.py"},
+            ]
+            if rng.random() < 0.5:
+                scen.insert(3, {"op": "reopen"})
+            for st in scen:
+                steps.append(st)
+                if st["op"] == "do":
+                    mirror_step(model, st)
+            swarm["replace_module_scenario"] = True
+            nid = 9300
+
         for _ in range(swarm["steps"]):
             r = rng.random() * (10 + swarm["reopen_w"] + swarm["oi_w"])
             if r < swarm["reopen_w"]:
